@@ -26,7 +26,8 @@ def judge(ctx, cases):
         for api in b["as"]:
             where = "line>1" if b["nl"] else "line1"
             recs.append({"api": api, "kind": b["kind"], "locus": jsonfam.locus_str(b["loc"]) + "/" + where,
-                         "witness": jsonfam.to_text(case["b"]), "case": {"b": case["b"]},
+                         "witness": jsonfam.padded_text(case),
+                         "case": {"b": case["b"], "pad": case["pad"]} if case.get("pad") else {"b": case["b"]},
                          "detail": {"reported": b["got"], "expected": b["exp"]}})
     return recs
 
